@@ -70,10 +70,100 @@ def _is_write(mode) -> bool:
     return mode is None or any(c in mode for c in WRITE_MODES)
 
 
+def inline_contextmanagers(mi, fn):
+    """Copy of fn in which `with g(args) as name: BODY`, for a @contextmanager generator g of the same module with one
+    `yield v`, is replaced by g's own statements around BODY (parameters substituted, `name = v` at the yield):
+    the protocol contextlib implements.  The same function object is returned when nothing applies."""
+    import copy
+    from ..model import decorator_names
+
+    def cm_of(call):
+        if not (isinstance(call, ast.Call) and isinstance(call.func, ast.Name) and call.func.id in mi.functions):
+            return None
+        g = mi.functions[call.func.id]
+        if not any(d.split('.')[-1] == 'contextmanager' for d in decorator_names(g)):
+            return None
+        ys = [n for n in ast.walk(g) if isinstance(n, (ast.Yield, ast.YieldFrom))]
+        if len(ys) != 1 or not isinstance(ys[0], ast.Yield) or call.keywords and any(k.arg is None for k in call.keywords):
+            return None
+        return g
+
+    class Sub(ast.NodeTransformer):
+        def __init__(self, mapping):
+            self.mapping = mapping
+
+        def visit_Name(self, n):
+            if isinstance(n.ctx, ast.Load) and n.id in self.mapping:
+                return copy.deepcopy(self.mapping[n.id])
+            return n
+
+    changed = [False]
+
+    def expand(stmts):
+        out = []
+        for st in stmts:
+            for fld in ('body', 'orelse', 'finalbody'):
+                if isinstance(getattr(st, fld, None), list) and not isinstance(st, (ast.FunctionDef, ast.ClassDef)):
+                    setattr(st, fld, expand(getattr(st, fld)))
+            if isinstance(st, ast.Try):
+                for h in st.handlers:
+                    h.body = expand(h.body)
+            g = cm_of(st.items[0].context_expr) if isinstance(st, ast.With) and len(st.items) == 1 else None
+            if g is None:
+                out.append(st)
+                continue
+            call = st.items[0].context_expr
+            gp = [a.arg for a in g.args.args]
+            mapping = dict(zip(gp, call.args))
+            mapping.update({k.arg: k.value for k in call.keywords})
+            gbody = [copy.deepcopy(x) for x in g.body
+                     if not (isinstance(x, ast.Expr) and isinstance(x.value, ast.Constant) and isinstance(x.value.value, str))]
+            gbody = [Sub(mapping).visit(x) for x in gbody]
+
+            def splice(block):
+                """replace the `yield v` statement of this block (searched through try bodies) by name = v; BODY"""
+                for i, x in enumerate(block):
+                    if isinstance(x, ast.Expr) and isinstance(x.value, ast.Yield):
+                        bind = []
+                        ov, yv = st.items[0].optional_vars, x.value.value
+                        if isinstance(ov, ast.Name) and isinstance(yv, ast.Name):
+                            ren[yv.id] = ov.id            # the yielded local IS the `as` name: one variable
+                        elif ov is not None and yv is not None:
+                            bind = [ast.Assign(targets=[copy.deepcopy(ov)], value=yv)]
+                        return block[:i] + bind + list(st.body) + block[i + 1:], True
+                    if isinstance(x, ast.Try):
+                        nb, ok = splice(x.body)
+                        if ok:
+                            x.body = nb
+                            return block, True
+                return block, False
+            ren = {}
+            nb, ok = splice(gbody)
+            if not ok:
+                out.append(st)
+                continue
+            if ren:
+                body_nodes = {id(y) for b_ in st.body for y in ast.walk(b_)}
+                for x in nb:
+                    for y in ast.walk(x):
+                        if isinstance(y, ast.Name) and y.id in ren and id(y) not in body_nodes:
+                            y.id = ren[y.id]
+            changed[0] = True
+            for x in nb:
+                ast.copy_location(x, st) if not hasattr(x, 'lineno') else None
+                ast.fix_missing_locations(x)
+            out.extend(nb)
+        return out
+    fn2 = copy.deepcopy(fn)
+    fn2.body = expand(fn2.body)
+    return fn2 if changed[0] else fn
+
+
 def _r121(ctx: Ctx) -> None:
     m = ctx.model
     mi, fn = m.func('panqec.utils', 'save_json')
     site = site_of(mi, fn)
+    fn = inline_contextmanagers(mi, fn)
     params = [a.arg for a in fn.args.args]
     ctx.need(len(params) >= 2, 'R12.1', site, 'save_json signature changed')
     dest = params[1]
@@ -174,8 +264,16 @@ def _writes_precede(fn, opens, replace_call) -> bool:
     if replace_call is None:
         return False
     pm = parent_map(fn)
+    # position in the text of the (possibly inlined) function: depth-first order, not line numbers
+    order = {}
+
+    def number(n):
+        order[id(n)] = len(order)
+        for ch in ast.iter_child_nodes(n):
+            number(ch)
+    number(fn)
     for c, _, _ in opens:
-        if c.lineno >= replace_call.lineno:
+        if order.get(id(c), 0) >= order.get(id(replace_call), -1):
             return False
         # the with statement (or plain statement) that holds the open call
         cur = c
@@ -477,15 +575,25 @@ def _r123c(ctx: Ctx) -> None:
         run = ci.methods.get('_run')
         ctx.need(run is not None, 'R12.3', site, f'{cname}._run not found')
         targets = []
+        # the trial loop and the methods of the same class it calls through self (the recording step may be a helper)
+        bodies, seen_m = [run], {'_run'}
+        for f_ in bodies:
+            for c_ in ast.walk(f_):
+                if isinstance(c_, ast.Call) and isinstance(c_.func, ast.Attribute) and isinstance(c_.func.value, ast.Name) \
+                        and c_.func.value.id == 'self' and c_.func.attr not in seen_m:
+                    r_ = ci.find_method(c_.func.attr)
+                    if r_ is not None and len(bodies) < 8:
+                        seen_m.add(c_.func.attr)
+                        bodies.append(r_[1])
         # local aliases of the results dictionary (results = self._results)
-        res_alias = {s_.targets[0].id for s_ in ast.walk(run) if isinstance(s_, ast.Assign) and len(s_.targets) == 1
+        res_alias = {s_.targets[0].id for f_ in bodies for s_ in ast.walk(f_) if isinstance(s_, ast.Assign) and len(s_.targets) == 1
                      and isinstance(s_.targets[0], ast.Name) and isinstance(s_.value, ast.Attribute)
                      and s_.value.attr in ('_results', 'results')}
 
         def is_results(e):
             return (isinstance(e, ast.Attribute) and e.attr in ('_results', 'results')) or \
                 (isinstance(e, ast.Name) and e.id in res_alias)
-        for n in ast.walk(run):
+        for n in (x for f_ in bodies for x in ast.walk(f_)):
             if isinstance(n, ast.Call) and isinstance(n.func, ast.Attribute) and n.func.attr == 'append':
                 t = n.func.value
                 depth = 0
@@ -652,12 +760,25 @@ def _r125(ctx: Ctx) -> None:
            f'the handler of an interrupt that may have arrived in the middle of a trial (or while results were being '
            f'loaded) calls {saves}: a torn in-memory state replaces the last completed save', key='BatchSimulation.run|no-save')
     # who may save: only _run (between rounds) and the retry handler of save_results
+    # (a helper counts as the trial loop when every call of it comes from _run or from such a helper)
+    callers: Dict[str, set] = {}
+    for name, f_ in ci.methods.items():
+        for n in ast.walk(f_):
+            if isinstance(n, ast.Call) and isinstance(n.func, ast.Attribute) and isinstance(n.func.value, ast.Name) \
+                    and n.func.value.id == 'self' and n.func.attr in ci.methods:
+                callers.setdefault(n.func.attr, set()).add(name)
+
+    def in_loop(name, seen=()):
+        if name == '_run':
+            return True
+        cs = callers.get(name, set())
+        return bool(cs) and name not in seen and all(in_loop(c_, seen + (name,)) for c_ in cs)
     for c in (ci, m.cls('BaseSimulation'), m.cls('DirectSimulation')):
         for name, f_ in c.methods.items():
             for n in ast.walk(f_):
                 if isinstance(n, ast.Call) and isinstance(n.func, ast.Attribute) and n.func.attr == 'save_results' \
                         and ast.unparse(n.func.value) == 'self' and c is ci:
-                    okc = name == '_run'
+                    okc = in_loop(name)
                     ctx.ob('R12.5', site_of(c.module, n), f'{c.name}.{name}: checkpoint only from the trial loop', okc,
                            f'{c.name}.{name} calls save_results outside the trial loop of _run',
                            key=f'{c.name}.{name}|save-site')
